@@ -2280,11 +2280,16 @@ package apd
 //@   ensures [f] d.Form == Finite && val(d.Coeff) >= 0 && fmtString == 102 ==> PlainText(ret, len(buf) + ite(d.Negative, 1, 0), val(d.Coeff), d.Exponent)
 //@   ensures [verb] d.Form == Finite && !knownverb(fmtString) ==> len(ret) == len(buf) + 2 && ret[len(buf)] == 37 && ret[len(buf) + 1] == fmtString
 //@ func (*Decimal).Scan
-//@   props C04 C06
+//@   props C04 C06 C13 C14
 //@   exported
 //@   requires writable(d)
 //@   assigns d
 //@   ensures [wf] ret == nil ==> inv(d)
+//@   ghost gneg: bool, gC: int, gE: int, gech: int, gform: int
+//@   ensures {C13,C14} [rt_fin_s] isstr(src) && inlimitsB(gC, gE) && FinText(bytes(istr(src)), gneg, gC, gE, gech) ==> ret == nil && d.Form == Finite && d.Negative == gneg && val(d.Coeff) == gC && d.Exponent == gE
+//@   ensures {C13,C14} [rt_spec_s] isstr(src) && SpecText(bytes(istr(src)), gform, gneg) ==> ret == nil && d.Form == gform && d.Negative == gneg
+//@   ensures {C13,C14} [rt_fin_b] isbytes(src) && inlimitsB(gC, gE) && FinText(ibytes(src), gneg, gC, gE, gech) ==> ret == nil && d.Form == Finite && d.Negative == gneg && val(d.Coeff) == gC && d.Exponent == gE
+//@   ensures {C13,C14} [rt_spec_b] isbytes(src) && SpecText(ibytes(src), gform, gneg) ==> ret == nil && d.Form == gform && d.Negative == gneg
 //@ func (*NullDecimal).Scan
 //@   props C04 C06
 //@   exported
